@@ -151,7 +151,9 @@ fn cmd_run(args: &[String]) -> i32 {
             Some(k) => index - start < k,
             None => index % hash_every == 0,
         };
-        if want_hash {
+        // only clean runs take part in the determinism self-check: a run that ended in a violation
+        // or was aborted may have seen address-dependent garbage (that is what is being reported)
+        if want_hash && res.violation.is_none() && res.aborted.is_none() {
             hashes.push((index, res.log_hash));
         }
         if samples.len() < 2 && res.nontrivial && res.violation.is_none() {
